@@ -17,7 +17,9 @@ RULE = ("Hypothesis draws a C01-style operator tree (square, tall, wide) and an 
         "on the NumPy reference matrix (two index arrays select the sub-matrix M[r][:,c] per Sliced's docstring; two lists "
         "select paired entries). Non-trivial: non-square or non-Dense operator, negative/strided/empty slice, index array, "
         "list pair, or complex operand. One A[s1,s2] case in four passes the very same index array object (negative "
-        "entries) for both axes of a possibly non-square operator.")
+        "entries) for both axes of a possibly non-square operator."
+        " Further: the indexed operator may itself be a python-slice view of a larger one, list pairs of 31..70"
+        " entries, index arrays of dtype int8 / int16 / int32 on axes of 64..127 positions.")
 ASSUMPTIONS = [
     "two index arrays mean the sub-matrix M[rows][:, cols] (docstring of Sliced); two Python lists mean paired entries (tests/test_operators.py::test_get_item)",
     "NotImplementedError for an index form the signature does not list is a clean rejection, not a failure",
